@@ -399,14 +399,17 @@ class FakeSnowflakeCursor:
         if self._arrow_table is None:
             # mimic snowflake python connector error type
             raise TypeError("No open result set")
-        tslice = self._arrow_table.slice(offset=self._arrow_table_fetch_index or 0, length=size).to_pylist()
+        tslice = self._arrow_table.slice(offset=self._arrow_table_fetch_index or 0, length=size)
 
         if self._arrow_table_fetch_index is None:
             self._arrow_table_fetch_index = size
         else:
             self._arrow_table_fetch_index += size
 
-        return tslice if self._use_dict_result else [tuple(d.values()) for d in tslice]
+        if self._use_dict_result:
+            return tslice.to_pylist()
+        # build tuples from the columns rather than per-row dicts, which collapse columns with the same name
+        return list(zip(*(c.to_pylist() for c in tslice.columns)))
 
     def get_result_batches(self) -> list[ResultBatch] | None:
         if self._arrow_table is None:
